@@ -397,6 +397,9 @@ func (w *Writer) WriteThrough(p []byte) (n int, err error) {
 	for _, x := range w.extensions {
 		frame.Header, err = x.SetBits(frame.Header)
 		if err != nil {
+			// Remember the error like flushFragment() callers do; otherwise
+			// Write() would retry the same write-through forever.
+			w.err = err
 			return 0, err
 		}
 	}
